@@ -89,6 +89,21 @@ CLAIMED["C16"] = dict(
          "whole batch (documented). fill with ExactMarginalLogLikelihood is documented as unsupported. Real inputs are seeded samples (n = 4 quick / 5 thorough).",
     technique="exact rational algebra of mask/fill vs deletion in TLC; TLC cache machine over policy orders; replay of all NaN patterns against the conditional on observed entries")
 
+CLAIMED["C18"] = dict(
+    category="model_checking",
+    text="Persist.tla models a model as carriers of prediction-relevant state (parameter, buffer, lazily registered buffer, constructor attribute, "
+         "random-at-construction attribute, cache with the parameter version it was computed from) and the three mechanisms (state_dict into a freshly "
+         "constructed model, pickle, deepcopy) applied at any point of a train/eval/predict/step history; TLC checks RoundTripExact and NoForeignCache on "
+         "the carrier inventory obtained by introspection of each real family (a lazily registered buffer is predicted to break state_dict). 24 real "
+         "families (exact x kernels/likelihoods/priors/constraints, SGPR, KISS-GP, RFF, multitask, Hadamard+LKJ, LCM, six variational distributions x "
+         "strategies, LMC / independent multitask, model list) x 4 save points x 3 mechanisms are replayed: prior, predictive, objective, KL, constraint "
+         "bounds and prior parameters of the restored model vs the original (bit-for-bit for pickle/deepcopy, 1e-12 for state_dict; the fresh model is "
+         "constructed under another seed with other hyperparameters, prior parameters and bounds).",
+    design_ref="DESIGN.md section 6 (C18)",
+    note="State drawn on first use (variational initialisation noise) is drawn under the same seed on both sides. Families are those of the zoo in checks/c18.py; "
+         "data are fixed small sets (7 points). Loading into an EXISTING model with caches is C03's LoadStateDict action.",
+    technique="TLA+ carrier/mechanism machine checked by TLC on the introspected inventory; round trips replayed on a zoo of real model families at TLC save points")
+
 PENDING = "check not built yet (build in progress; see DESIGN.md section 11)"
 NOT_APPLICABLE = {}
 
